@@ -294,6 +294,24 @@ def rule_layout(ctx, sch, rule='C01.LAYOUT'):
     e = sch.env(au, {'hashX': HX})
     n += scan_store_reads(ctx, sch, e, au, rule)
     n += scan_decodes(ctx, sch, e, au, rule)
+    n += rule_layout_lookup(ctx, sch, rule)
+    ce = ctx.func('db', 'DB.clear_excess_undo_info')
+    e = sch.env(ce)
+    n += scan_store_reads(ctx, sch, e, ce, rule)
+    n += scan_decodes(ctx, sch, e, ce, rule)
+    cu = ctx.func('db', 'DB.read_utxo_state').nested.get('count_utxos')
+    if cu is not None:
+        n += scan_store_reads(ctx, sch, sch.env(cu), cu, rule)
+    for note in sch.notes:
+        ctx.note(note)
+    return n
+
+
+def rule_layout_lookup(ctx, sch, rule):
+    '''LAYOUT obligations of DB.lookup_utxos (the mempool's window onto the UTXO tables).'''
+    n = 0
+    HX = sch.w.HX()
+    uk, uv = sch.s[('store', 'UTXO')][b'u']
     lu = ctx.func('db', 'DB.lookup_utxos')
     lh = lu.nested['lookup_hashXs'].nested['lookup_hashX']
     e = sch.env(lh, {lh.params[0]: H32()})
@@ -317,16 +335,10 @@ def rule_layout(ctx, sch, rule='C01.LAYOUT'):
     e = sch.env(lo, {lo.params[0]: HX, lo.params[1]: suffix if isinstance(suffix, Lay) else uk.slice(1 + len(HX), None)})
     n += scan_store_reads(ctx, sch, e, lo, rule)
     n += scan_decodes(ctx, sch, e, lo, rule)
-    ce = ctx.func('db', 'DB.clear_excess_undo_info')
-    e = sch.env(ce)
-    n += scan_store_reads(ctx, sch, e, ce, rule)
-    n += scan_decodes(ctx, sch, e, ce, rule)
-    cu = ctx.func('db', 'DB.read_utxo_state').nested.get('count_utxos')
-    if cu is not None:
-        n += scan_store_reads(ctx, sch, sch.env(cu), cu, rule)
-    for note in sch.notes:
-        ctx.note(note)
-    return n
+    rets = [r for r in lo.own_nodes() if isinstance(r, ast.Return) and isinstance(r.value, ast.Tuple)]
+    ctx.check(len(rets) == 1 and norm(rets[0].value.elts[0]) == lo.params[0], rule, ctx.key(lo, None, 'returns (hashX, value)'),
+              'a found prevout is answered with (its hashX, its decoded amount)', 'lookup_utxo does not return (hashX, value)', loc=ctx.loc(lo, lo.node))
+    return n + 1
 
 
 def rule_rowpair(ctx, sch):
